@@ -33,6 +33,54 @@ PROBES = {
 }
 
 
+RAW_HEADER = ("from Reduino import target\nfrom Reduino.Communication import SerialMonitor\nfrom Reduino.Utils import sleep\n"
+              'target("COM3", upload=False)\nmon = SerialMonitor(9600)\n')
+# Scripts outside the Lang grammar (range() with start/stop/step in comprehensions, empty list displays in tuple assignments).
+# Each keeps the amount of live Python list data the same at every pass boundary, so the pass-leak law applies with a constant
+# premise; the printed values are compared with CPython's.
+RAW_SCRIPTS = {
+    "raw-comp-negative-strides": "xs = [i for i in range(10, 0, -2)]\nmon.write(xs[4])\nmon.write(xs[0])\nwhile True:\n    ys = [i * 2 for i in range(7, 0, -3)]\n"
+                                 "    mon.write(ys[2])\n    zs = [i for i in range(3, 0, -5)]\n    mon.write(zs[0])\n    ws = [i for i in range(9, -1, -4)]\n    mon.write(ws[2] + ws[0])\n",
+    "raw-comp-positive-strides": "xs = [i for i in range(2, 11, 4)]\nmon.write(xs[2])\nwhile True:\n    ys = [i + 1 for i in range(1, 8, 3)]\n    mon.write(ys[2] + ys[0])\n"
+                                 "    us = [i for i in range(0, 7, 7)]\n    mon.write(us[0])\n    vs = [i for i in range(5, 6)]\n    mon.write(vs[0])\n",
+    "raw-tuple-reset-to-empty": "samples = [1]\ncount = 0\nwhile True:\n    samples.append(7)\n    samples.append(8)\n    mon.write(samples[-1] + count)\n    samples, count = [], count + 1\n",
+    "raw-tuple-refill-from-literals": "a = [1, 2]\nb = [3]\nwhile True:\n    a.append(5)\n    b.append(6)\n    mon.write(a[-1] + b[-1])\n    a, b = [1, 2], [3]\n",
+    "raw-reassign-then-grow-and-shrink": "buf = [4, 5, 6]\nwhile True:\n    buf = [9, 8, 7]\n    buf.append(1)\n    buf.append(2)\n    mon.write(buf[0] + buf[4])\n    buf.remove(1)\n    buf.remove(2)\n",
+}
+
+
+def _raw_job(item):
+    name, body = item
+    src = RAW_HEADER + body
+    r = fw.run_script({"src": src, "passes": 4, "inputs": "h 1\n", "san": True})
+    py = lang.run_cpython(src, 4, [])
+    return name, src, r, py
+
+
+def raw_part(run) -> None:
+    fw.ensure_runtime(True)
+    with cf.ProcessPoolExecutor(max_workers=min(NCPU, len(RAW_SCRIPTS))) as ex:
+        outs = list(ex.map(_raw_job, sorted(RAW_SCRIPTS.items())))
+    traces, meta = [], {}
+    for name, src, r, py in outs:
+        run.count("raw:" + name)
+        if r["transpile"] != "accept" or r.get("compile") != "ok":
+            run.cov.setdefault("raw_not_run", []).append(f"{name}: {r['transpile']} {r.get('msg') or ''} {r.get('compile') or ''}")
+            continue
+        got = [e.get("v") for e in r.get("events", []) if e.get("e") == "w"]
+        want = [t["toks"][0]["n"] for t in py.get("ev", []) if t.get("e") == "w" and t.get("toks")] if isinstance(py, dict) else None
+        if want is not None and py.get("status", "ok") == "ok" and got != want:
+            run.violation(f"{name}: list program prints {got[:12]}, CPython prints {want[:12]}", {"raw": name, "script": src})
+        traces.append({"id": name, "py": [0] * 8, "ev": heap.project(r["events"], r.get("memerr"))})
+        meta[name] = src
+    if traces:
+        v = validate("HeapTrace", "HeapTrace.cfg", traces, run, label="raw list scripts")
+        for t in traces:
+            if not v[t["id"]]["ok"]:
+                run.violation(f"{t['id']}: heap law broken at event {v[t['id']]['l']} ({v[t['id']]['clause']}): {meta[t['id']][len(RAW_HEADER):][:200]!r}",
+                              {"raw": t["id"], "script": meta[t["id"]], "verdict": v[t["id"]], "events": t["ev"][:40]})
+
+
 def _job(p):
     src = lang.render(p)
     inputs = "h 1\n" + (("a 14 " + " ".join(map(str, p["ain"])) + "\n") if p["ain"] else "")
@@ -113,6 +161,7 @@ def check(run) -> None:
     for pid, r3 in vals.items():
         if langcheck.outcome(r3) in ("mismatch", "run_fail"):
             run.violation(f"{pid}: list/str program prints a wrong value: {langcheck.describe(pid, r3)}", langcheck.replay_of({"id": pid}, r3))
+    raw_part(run)
     # ---- probes of the known findings
     for fid, ps in PROBES.items():
         pres = run_progs(run, ps, lv)
@@ -146,6 +195,17 @@ def live_data(ev: dict) -> dict:
 
 def replay(path: str) -> int:
     r = json.load(open(path))
+    if "raw" in r:
+        from harness.result import Run
+        rr = Run("C09", "quick", 1)
+        global RAW_SCRIPTS
+        RAW_SCRIPTS = {r["raw"]: r["script"][len(RAW_HEADER):]}
+        raw_part(rr)
+        print(json.dumps({"violations": len(rr.violations)}))
+        if rr.violations:
+            print(f"VIOLATION property=C09 replay={path}")
+            return 1
+        return 0
     p = r["program"]
     lv = live_data(lang.spec_eval([p]))
     from harness.result import Run
